@@ -438,7 +438,7 @@ func Main() {
 		},
 		Run:            run,
 		Replay:         replay,
-		QuickBudget:    170 * time.Second,
+		QuickBudget:    300 * time.Second,
 		ThoroughBudget: 60 * time.Minute,
 		MaxShards:      8,
 		MaxConfirm:     3,
